@@ -619,6 +619,7 @@ func checkC01(p *Program, r *Report) {
 				continue
 			}
 			arg := ssa.Value(m.Params[1])
+			stores := 0
 			for _, b := range m.Blocks {
 				for _, in := range b.Instrs {
 					st, ok := in.(*ssa.Store)
@@ -628,7 +629,18 @@ func checkC01(p *Program, r *Report) {
 					if _, isF := st.Addr.(*ssa.FieldAddr); !isF {
 						continue
 					}
+					stores++
 					r.Add("C01.setter", FnName(m), "the setter stores its argument on every path", st.Pos(), dominatesAllReturns(m, b), "the store is skipped on some path: the requested value is silently ignored")
+				}
+			}
+			// second sweep (the only statement of SetFormat deleted): a method without results whose one argument has the
+			// type of a field of the receiver is a setter, and a setter stores
+			if st, ok := nt.Underlying().(*types.Struct); ok && stores == 0 && len(m.Blocks) > 0 {
+				for i := 0; i < st.NumFields(); i++ {
+					if types.Identical(st.Field(i).Type(), arg.Type()) {
+						r.Add("C01.setter", FnName(m), "the setter stores its argument on every path", m.Pos(), false, "no store of the argument into the receiver at all")
+						break
+					}
 				}
 			}
 		}
@@ -1238,6 +1250,60 @@ func c01total(p *Program, r *Report, addrTypes []*types.Named) {
 				f := lcx.FactsOf(MustConds(fn, ap))
 				okLen := lcx.EntailsEq(f, lcx.LenLin(fn.Params[0]).addConst(-want))
 				r.Add("C01.total", FnName(fn), fmt.Sprintf("accepting return #%d knows the hash has exactly %d bytes", i+1, want), ap.Ret.Pos(), okLen, "len(hash) == size of the hash array on every accepting path")
+				// second sweep (the `copy(addr.hash[:], hash)` statement deleted in the P2SH32 constructor, unnoticed by the
+				// suite): the address handed out has been filled from the hash argument — a copy (or store) whose
+				// destination lies in the returned object and whose source is the parameter, before the return
+				filled := false
+				for _, b := range fn.Blocks {
+					if !(b == ap.Ret.Block() || b.Dominates(ap.Ret.Block())) {
+						continue
+					}
+					for _, in := range b.Instrs {
+						// `addr.hash = [N]byte(hash)` / `*(*[N]byte)(hash)`: a store of the converted argument
+						if st, isSt := in.(*ssa.Store); isSt {
+							if fa, isFA := st.Addr.(*ssa.FieldAddr); isFA && canonRoot(fa.X) == canonRoot(ap.Ret.Results[0]) {
+								v := st.Val
+								for k := 0; k < 6; k++ {
+									switch x := v.(type) {
+									case *ssa.UnOp:
+										v = x.X
+									case *ssa.SliceToArrayPointer:
+										v = x.X
+									case *ssa.Convert:
+										v = x.X
+									case *ssa.ChangeType:
+										v = x.X
+									case *ssa.Slice:
+										v = x.X
+									}
+								}
+								if v == ssa.Value(fn.Params[0]) {
+									filled = true
+								}
+							}
+							continue
+						}
+						c, ok := in.(*ssa.Call)
+						if !ok || !isBuiltin(&c.Call, "copy") || len(c.Call.Args) != 2 {
+							continue
+						}
+						dst, src := c.Call.Args[0], c.Call.Args[1]
+						fromParam := src == ssa.Value(fn.Params[0])
+						if sl, isSl := src.(*ssa.Slice); isSl && sl.X == ssa.Value(fn.Params[0]) {
+							fromParam = true
+						}
+						intoResult := false
+						if sl, isSl := dst.(*ssa.Slice); isSl {
+							if fa, isFA := sl.X.(*ssa.FieldAddr); isFA && canonRoot(fa.X) == canonRoot(ap.Ret.Results[0]) {
+								intoResult = true
+							}
+						}
+						if fromParam && intoResult {
+							filled = true
+						}
+					}
+				}
+				r.Add("C01.total", FnName(fn), fmt.Sprintf("accepting return #%d hands out an address filled from the hash argument", i+1), ap.Ret.Pos(), filled, "copy(<result>.hash[:], hash) on the way to the return")
 			}
 		}
 	}
@@ -1245,6 +1311,56 @@ func c01total(p *Program, r *Report, addrTypes []*types.Named) {
 		r.Unresolved("C01.total", "hash-taking address constructors")
 	}
 	r.Floor("C01.total", 3)
+	// second sweep: a conversion method that builds another address kind itself (AddressPubKey.AddressPubKeyHash) fills
+	// the object it returns with the hash it computed — `copy(addr.hash[:], Hash160(a.serialize()))` deleted leaves an
+	// all-zero hash and passes the suite
+	for _, nt := range addrTypes {
+		for _, m := range p.Methods("", nt.Obj().Name()) {
+			if len(m.Blocks) == 0 || m.Signature.Results().Len() != 1 || len(m.Params) != 1 {
+				continue
+			}
+			rt := namedOf(m.Signature.Results().At(0).Type())
+			isAddr := false
+			for _, a := range addrTypes {
+				if a == rt && a != nt {
+					isAddr = true
+				}
+			}
+			if !isAddr || arrayFieldLen(rt) <= 0 {
+				continue
+			}
+			for _, ret := range returnsOf(m) {
+				al, isAlloc := canonRoot(ret.Results[0]).(*ssa.Alloc)
+				if !isAlloc {
+					continue // delegates to a constructor
+				}
+				filled := false
+				for _, b := range m.Blocks {
+					if !(b == ret.Block() || b.Dominates(ret.Block())) {
+						continue
+					}
+					for _, in := range b.Instrs {
+						c, ok := in.(*ssa.Call)
+						if !ok || !isBuiltin(&c.Call, "copy") || len(c.Call.Args) != 2 {
+							continue
+						}
+						sl, isSl := c.Call.Args[0].(*ssa.Slice)
+						if !isSl {
+							continue
+						}
+						fa, isFA := sl.X.(*ssa.FieldAddr)
+						if !isFA || canonRoot(fa.X) != ssa.Value(al) {
+							continue
+						}
+						if hc, isCall := c.Call.Args[1].(*ssa.Call); isCall && hc.Call.StaticCallee() != nil && p.InRepo(hc.Call.StaticCallee()) {
+							filled = true
+						}
+					}
+				}
+				r.Add("C01.hashing", FnName(m), "the converted address is filled with the hash computed from the receiver", ret.Pos(), filled, "copy(<result>.hash[:], <hash of the serialised key>) on the way to the return")
+			}
+		}
+	}
 }
 
 // addrPureRule (round 6, C02-agent6-m3): decoding, converting and rendering an address write nothing the caller can
@@ -1319,6 +1435,25 @@ func addrPureRule(p *Program, r *Report, rule string, addrTypes []*types.Named) 
 // around the store, on a path that has not established that the address is nil.
 func c01slpPrefix(p *Program, r *Report) {
 	n := 0
+	relabels := map[*ssa.Function]bool{}
+	defer func() {
+		// second sweep (the re-labelling statement deleted): every exported NewSlp… constructor of the root package
+		// re-labels, or returns what another one that does has built
+		for _, fn := range pkgFuncs(p, "") {
+			if fn.Pkg != p.Pkg("") || fn.Parent() != nil || fn.Object() == nil || !fn.Object().Exported() || !strings.HasPrefix(fn.Name(), "NewSlp") || relabels[fn] {
+				continue
+			}
+			delegates := false
+			for _, b := range fn.Blocks {
+				for _, in := range b.Instrs {
+					if c, ok := in.(*ssa.Call); ok && c.Call.StaticCallee() != nil && relabels[c.Call.StaticCallee()] {
+						delegates = true
+					}
+				}
+			}
+			r.Add("C01.membership", FnName(fn), "the SLP constructor re-labels every address it returns", fn.Pos(), delegates, "no store of Params.SlpAddressPrefix into the result and no call of a constructor that stores it")
+		}
+	}()
 	for _, fn := range pkgFuncs(p, "") {
 		if fn.Pkg != p.Pkg("") || fn.Parent() != nil {
 			continue
@@ -1339,6 +1474,7 @@ func c01slpPrefix(p *Program, r *Report) {
 				}
 				obj := fa.X // the address being re-labelled
 				n++
+				relabels[fn] = true
 				// search: entry → return, never entering b, never taking an edge that says obj == nil
 				type stt struct{ blk *ssa.BasicBlock }
 				seen := map[*ssa.BasicBlock]bool{}
